@@ -421,6 +421,10 @@ func scenarios() []scenario {
 			ops = append(ops, op{kind: "set", x: 0, r: 'e', comb: ci})
 			ops = append(ops, op{kind: "set", x: 1, r: '世', comb: ci})
 		}
+		// zero-width and control main runes (shown as a blank) carrying combining runes
+		for _, ci := range []int{1, 3} {
+			ops = append(ops, op{kind: "set", x: 0, r: 0x200b, comb: ci}, op{kind: "set", x: 1, r: '\t', comb: ci})
+		}
 		ops = append(ops, op{kind: "mutate"}, op{kind: "cleanall"}, op{kind: "dirty", x: 0, flag: false}, op{kind: "fill", r: 'e'},
 			op{kind: "resize", w: 3, h: 1}, op{kind: "resize", w: 2, h: 1})
 		out = append(out, scenario{"D-combining-2x1", 2, 1, ops, 4, 5})
